@@ -211,7 +211,13 @@ func (dw *DiskWriter) HandleChange(kind ChangeKind, p string, fi os.FileInfo, er
 			}
 		}
 
-		if err := renameFile(newPath, destPath); err != nil {
+		if newFi, err := os.Lstat(newPath); err == nil && os.SameFile(oldFi, newFi) {
+			// destPath already is a link to this inode: rename(2) would do
+			// nothing and leave the temporary name behind
+			if err := os.Remove(newPath); err != nil {
+				return errors.Wrapf(err, "failed to remove %s", newPath)
+			}
+		} else if err := renameFile(newPath, destPath); err != nil {
 			return errors.Wrapf(err, "failed to rename %s to %s", newPath, destPath)
 		}
 	}
